@@ -244,3 +244,26 @@ Proof.
   split; [exact Hne|]. split; [exact Hw|]. split; [exact Hs|].
   rewrite <- Hs at 1. apply sample_claims_units; assumption.
 Qed.
+
+(* ---------- streams shorter than 4 GiB: every unit fits its length field ---------- *)
+Lemma unit_le_stream : forall us u, In u us -> Zlen (snd u) <= Zlen (stream us).
+Proof.
+  induction us as [|[f n] t IH]; intros u Hin; [destruct Hin|].
+  cbn [stream]. rewrite !Zlen_app. pose proof (Zlen_nonneg (start_code f)). pose proof (Zlen_nonneg n).
+  pose proof (Zlen_nonneg (stream t)).
+  destruct Hin as [<- | Hin]; [cbn [snd]; lia|]. specialize (IH u Hin). lia.
+Qed.
+
+Lemma fit_units_short us : Zlen (stream us) < 4294967296 -> fit_units us = true.
+Proof.
+  intros Hlt. unfold fit_units. apply forallb_forall. intros u Hin. unfold fits32.
+  pose proof (unit_le_stream us u Hin). lia.
+Qed.
+
+Lemma stream_bytes_short d : wf_stream d = true -> Zlen d < 4294967296 ->
+  to_nalu_sample d = Ok (sample (map snd (unstream d))) /\
+  (do s <- to_nalu_sample d; to_byte_stream s) = Ok (stream4 (map snd (unstream d))).
+Proof.
+  intros H Hlt. destruct (stream_bytes d H) as (_ & _ & Hs & _ & _ & Hc & _).
+  apply Hc. apply fit_units_short. rewrite Hs. exact Hlt.
+Qed.
